@@ -169,3 +169,115 @@ func C10IngesterStep() {
 	}
 	zz.Fail("no terminal result")
 }
+
+// zzUUIDv3 replaces customfuncs.UUIDv3 (MD5-based UUID) in the engine: the checksum is the
+// canonical JSON text itself, i.e. MD5/UUID collision-freedom is trusted.
+func zzUUIDv3(_ *transformctx.Ctx, s string) (string, error) { return "uuid(" + s + ")", nil }
+
+// zzRunOnce: one transform over K records with the given texts; returns the outputs and
+// raw-record checksums.
+func zzRunOnce(texts []string, decl *transform.Decl) (outs []string, sums []string) {
+	root := idr.CreateNode(idr.DocumentNode, "")
+	fr := &zzFR{root: root, last: -1, ioErrAt: -1}
+	for _, t := range texts {
+		n := idr.CreateNode(idr.ElementNode, "T")
+		idr.AddChild(root, n)
+		v := idr.CreateNode(idr.ElementNode, "v")
+		idr.AddChild(n, v)
+		idr.AddChild(v, idr.CreateNode(idr.TextNode, t))
+		w := idr.CreateNode(idr.ElementNode, "w")
+		idr.AddChild(n, w)
+		idr.AddChild(w, idr.CreateNode(idr.TextNode, "k"))
+		fr.recs = append(fr.recs, n)
+	}
+	fr.released = make([]int, len(texts))
+	g := &ingester{finalOutputDecl: decl, customFuncs: transform.ZZFuncs, ctx: &transformctx.Ctx{}, reader: fr}
+	for i := 0; i < len(texts)+1; i++ {
+		raw, out, err := g.Read()
+		if err == io.EOF {
+			break
+		}
+		if err != nil {
+			outs = append(outs, "ERR")
+			sums = append(sums, "")
+			continue
+		}
+		outs = append(outs, string(out))
+		sums = append(sums, raw.Checksum())
+	}
+	return outs, sums
+}
+
+// C15Hidden2Run: the same transform run twice in one process gives byte-identical outputs
+// and checksums although everything hidden differs in between: the node-ID counter is
+// advanced by an arbitrary amount, the node pool holds nodes recycled from an unrelated
+// transform, map iteration order is arbitrary in every range.
+func C15Hidden2Run() {
+	zz.MapOrder(2)
+	K := zz.Param("K", 2)
+	decl := transform.ZZValidate(map[string]*transform.Decl{"FINAL_OUTPUT": {Object: map[string]*transform.Decl{
+		"a": {XPath: zzS("v")},
+		"b": {XPath: zzS("w")},
+		"c": {Object: map[string]*transform.Decl{"v": {XPath: zzS("v")}, "k": {Const: zzS("k")}}},
+	}}})
+	var texts []string
+	for i := 0; i < K; i++ {
+		b := zz.NondetBytes("rec", 1)
+		for _, c := range b {
+			zz.Assume(zz.ByteIn(c, "1a"))
+		}
+		texts = append(texts, string(b))
+	}
+	o1, s1 := zzRunOnce(texts, decl)
+	// an unrelated transform in between: populates the pool, advances the ID counter
+	zzRunOnce([]string{"zzz", "yy"}, decl)
+	for i, n := 0, zz.NondetInt("idBump", 0, 3); i < n; i++ {
+		idr.RemoveAndReleaseTree(idr.CreateNode(idr.ElementNode, "junk"))
+	}
+	o2, s2 := zzRunOnce(texts, decl)
+	zz.Assert(len(o1) == len(o2), "same number of results")
+	for i := range o1 {
+		if i < len(o2) {
+			zz.Assert(o1[i] == o2[i], "byte-identical output when repeated after other transforms")
+			zz.Assert(s1[i] == s2[i], "equal checksum for equal raw records")
+		}
+	}
+	// checksums differ when an ingested value differs
+	if K >= 2 {
+		zz.Assert((s1[0] == s1[1]) == (texts[0] == texts[1]), "checksums are equal exactly when the raw records are")
+	}
+	zz.Cover("repeated")
+}
+
+// C15ChecksumXML: XML record shapes: two records that differ in an attribute value or in
+// mixed-content text must have different checksums.
+func C15ChecksumXML() {
+	mk := func(tag string) (*idr.Node, string, string) {
+		av := zz.NondetBytesN(tag+".attr", 1)
+		tv := zz.NondetBytesN(tag+".text", 1)
+		zz.Assume(zz.ByteIn(av[0], "12"))
+		zz.Assume(zz.ByteIn(tv[0], "xy"))
+		t := idr.CreateXMLNode(idr.ElementNode, "T", idr.XMLSpecific{})
+		a := idr.CreateXMLNode(idr.AttributeNode, "k", idr.XMLSpecific{})
+		idr.AddChild(t, a)
+		idr.AddChild(a, idr.CreateXMLNode(idr.TextNode, string(av), idr.XMLSpecific{}))
+		if zz.Param("mixed", 0) == 1 {
+			idr.AddChild(t, idr.CreateXMLNode(idr.TextNode, string(tv), idr.XMLSpecific{}))
+		}
+		for _, s := range []string{"one", "two"} {
+			e := idr.CreateXMLNode(idr.ElementNode, "e", idr.XMLSpecific{})
+			idr.AddChild(t, e)
+			idr.AddChild(e, idr.CreateXMLNode(idr.TextNode, s, idr.XMLSpecific{}))
+		}
+		return t, string(av), string(tv)
+	}
+	n1, a1, t1 := mk("r1")
+	n2, a2, t2 := mk("r2")
+	c1 := (&rawRecord{node: n1}).Checksum()
+	c2 := (&rawRecord{node: n2}).Checksum()
+	same := a1 == a2 && (zz.Param("mixed", 0) == 0 || t1 == t2)
+	// F13: JSONify2 drops attributes of array-like parents and text of mixed content
+	zz.KnownRegion("F13", !same)
+	zz.Assert((c1 == c2) == same, "checksums differ when any ingested value differs")
+	zz.Cover("compared")
+}
